@@ -68,18 +68,23 @@ CHECKS = {
                 tech="Kani/CBMC bounded model checking of macro-generated Default impls"),
     "C03": dict(engine="E3 mir-smt", ref="DESIGN.md §3, §6 C03",
                 text="Symbolic path execution of every builder's MIR with z3: per path, the field-type bounds pushed are exactly those of the fields the documentation calls used, "
-                     "given the bound(..) chain reached its end; plus the parameter-mention kernel (GenericParamSet::new, Visitor::visit_path). Restricted scope: the trait-solver "
-                     "clause of the statement is not decided.",
+                     "given the bound(..) chain reached its end; plus the parameter-mention kernel (GenericParamSet::new, Visitor::visit_path). The instantiation clause (the impl applies "
+                     "exactly when the used field types implement the trait) is observed, not encoded: generated programs compare `X<P..>: Trait` of the real derive with a hand-written "
+                     "twin impl carrying the documented where-clause, for probe types implementing chosen trait subsets, as compile-time constants decided by rustc's trait solver.",
                 note="Trusted: rustc's MIR dump, the executor's MIR subset semantics and callee models (validated by native replay of every counterexample), z3. Token plumbing is opaque. "
-                     "Bounds: <=2 fields, 1 variant. Restricted claim: used-field rule + parameter-mention kernel only.",
-                tech="symbolic execution of rustc MIR + z3 (one query per path), native replay of models"),
+                     "Bounds: <=2 fields, 1 variant (E3); instantiation programs: 12 trait families x a 16-entry field-type grammar x attribute shapes x {PAll, PNone, P<only>} per type parameter. "
+                     "The instantiation verdicts are rustc's (folded constants), Kani only hosts them.",
+                tech="symbolic execution of rustc MIR + z3 (one query per path), native replay of models; trait-solver probing programs under Kani for the instantiation clause"),
     "C04": dict(engine="E3 mir-smt", ref="DESIGN.md §3, §6 C04",
                 text="Symbolic path execution of every builder's MIR (Clone, Copy, Debug, Default, Deref, operators, five comparison traits; struct and enum) with z3: per path the "
-                     "sequence of bound(..) levels consulted equals the documented nine-level resolution under the path condition, with presence / `..` / entry-presence of every level symbolic. "
-                     "Counterexamples are turned into items with one marker predicate per level and replayed through the real macro.",
+                     "sequence of bound(..) levels consulted equals the documented nine-level resolution under the path condition, with presence / `..` / entry-presence of every level symbolic; "
+                     "DeriveEntry::from_args_list takes each entry's two argument levels from its own written arguments. Counterexamples are turned into items with one marker predicate per "
+                     "level and replayed through the real macro. End to end (parser and where-clause included): generated programs with bound(...) written at sampled subsets of the nine places, "
+                     "compared through rustc's trait solver (compile-time constants) with a hand-written twin carrying the documented where-clause.",
                 note="Trusted: rustc's MIR dump, the executor's MIR subset semantics and callee models, z3 (thorough: cross-checked with z3 4.8.12 and cvc5). Bounds: <=2 variants x <=2 fields. "
-                     "Outside: Bound::parse / Bounds::from, build_default_for_enum, retention of the type's own where-clause (WhereClauseBuilder::new is opaque).",
-                tech="symbolic execution of rustc MIR + z3 (one query per path), native replay of models"),
+                     "`Bound::parse` / `Bounds::from` are outside the E3 encoding; they are exercised only by the resolution programs (7 traits x struct/enum x sampled placements x 5-6 forms; "
+                     "verdicts are rustc's, Kani hosts them). Outside: build_default_for_enum in E3, retention of the type's own where-clause (WhereClauseBuilder::new is opaque).",
+                tech="symbolic execution of rustc MIR + z3 (one query per path), native replay of models; trait-solver probing programs under Kani for the written-argument-to-where-clause end"),
     "C05": dict(engine="E3 mir-smt", ref="DESIGN.md §3, §6 C05",
                 text="Symbolic path execution of the five comparison body builders, the placement verifier and the per-entry error isolation with z3: a path returns Err exactly when "
                      "the documented rejection rule holds for some existing field under the path condition (all 20 attribute-presence atoms of a field symbolic).",
